@@ -29,6 +29,9 @@ type c20Client struct {
 	// ShortExpiry (v5, persistent): Session Expiry Interval 1 s, so that a "sleep" while it is offline lets the
 	// session expire before the client comes back without Clean Start (the 20 s sweeper never runs in a case).
 	ShortExpiry bool `json:"short_expiry,omitempty"`
+	// EmptyID (v5): the first CONNECT carries a zero-length client id; the broker assigns one (CONNACK Assigned Client
+	// Identifier), which the client uses from then on and under which its statistics must appear
+	EmptyID bool `json:"empty_id,omitempty"`
 }
 
 type c20Op struct {
@@ -55,6 +58,9 @@ func genC20(t *rapid.T) c20Scen {
 		c := c20Client{V: rapid.SampledFrom([]int{4, 5}).Draw(t, "v"), Persistent: rapid.IntRange(0, 2).Draw(t, "pers") != 0}
 		if c.V == 5 && rapid.IntRange(0, 2).Draw(t, "mp") == 0 {
 			c.MaxPkt = 90
+		}
+		if c.V == 5 && rapid.IntRange(0, 3).Draw(t, "emptyid") == 0 {
+			c.EmptyID = true
 		}
 		if c.V == 5 && c.Persistent && rapid.IntRange(0, 3).Draw(t, "short") == 0 {
 			c.ShortExpiry = true
@@ -248,6 +254,12 @@ func runC20(s c20Scen, c *ev.Case) *ev.Violation {
 	}
 	defer b.Stop()
 
+	ids := make([]string, len(s.Clients)) // client ids; replaced by the broker-assigned id for clients that sent none
+	for i := range ids {
+		ids[i] = clientName(i)
+	}
+	cid := func(i int) string { return ids[i] }
+	assigned := make([]bool, len(s.Clients))
 	sess := make([]*c20Sess, len(s.Clients))
 	global := newLedger() // everything exchanged on connections of sessions that have ended
 	var gConnected, gDisconnected, gCreated, gTerminated uint64
@@ -270,7 +282,7 @@ func runC20(s c20Scen, c *ev.Case) *ev.Violation {
 		// drop records of the ended session are dropped with it
 		mu.Lock()
 		for k := range drops {
-			if k.client == clientName(i) {
+			if k.client == cid(i) {
 				delete(drops, k)
 			}
 		}
@@ -306,11 +318,15 @@ func runC20(s c20Scen, c *ev.Case) *ev.Violation {
 		if err != nil {
 			return harnessErr("dial: %v", err)
 		}
-		cl := fixture.NewClient(conn, clientName(i), ver(cs.V))
+		cl := fixture.NewClient(conn, cid(i), ver(cs.V))
 		cl.OnPacket = holdAck(cl, ss)
 		allConns = append(allConns, cl)
 		name, lvl := mw.ProtoFor(ver(cs.V))
-		p := &mw.Packet{Type: mw.CONNECT, ProtoName: name, ProtoLevel: lvl, ClientID: clientName(i), CleanStart: clean}
+		p := &mw.Packet{Type: mw.CONNECT, ProtoName: name, ProtoLevel: lvl, ClientID: cid(i), CleanStart: clean}
+		askedForID := cs.EmptyID && cs.V == 5 && !assigned[i]
+		if askedForID {
+			p.ClientID = ""
+		}
 		if cs.V == 5 {
 			p.Props = &mw.Props{}
 			if cs.Persistent {
@@ -329,6 +345,14 @@ func runC20(s c20Scen, c *ev.Case) *ev.Violation {
 		ack, err := cl.WaitType(mw.CONNACK, fixture.DefaultWait)
 		if err != nil || ack.ReasonCode != 0 {
 			return ev.Violf("C20.connect", "client %d: CONNECT failed: %v %v", i, ack, err)
+		}
+		if askedForID {
+			if ack.Props == nil || ack.Props.AssignedClientID == nil || *ack.Props.AssignedClientID == "" {
+				return ev.Violf("C20.connect", "client %d: CONNECT with a zero-length client id answered without an Assigned Client Identifier", i)
+			}
+			ids[i], assigned[i] = *ack.Props.AssignedClientID, true
+			cl.ID = ids[i]
+			c.Label("server_assigned_client_id")
 		}
 		gConnected++
 		resumed := ack.SessionPresent
@@ -351,7 +375,7 @@ func runC20(s c20Scen, c *ev.Case) *ev.Violation {
 				return ev.Violf("C20.suback", "%v", err)
 			}
 			ss.hasSentry = true
-			ss.subs[fixture.SentinelTopic(clientName(i))] = subSpec{Filter: fixture.SentinelTopic(clientName(i))}
+			ss.subs[fixture.SentinelTopic(cid(i))] = subSpec{Filter: fixture.SentinelTopic(cid(i))}
 		}
 		return nil
 	}
@@ -410,7 +434,7 @@ func runC20(s c20Scen, c *ev.Case) *ev.Violation {
 	goOffline := func(i int) *ev.Violation {
 		ss := sess[i]
 		ss.cur.Kill()
-		if !waitClientGone(b, clientName(i)) {
+		if !waitClientGone(b, cid(i)) {
 			return harnessErr("client %d still registered 5 s after close\n%s", i, brokerGoroutines())
 		}
 		gDisconnected++
@@ -439,7 +463,7 @@ func runC20(s c20Scen, c *ev.Case) *ev.Violation {
 			var gQueued, gInflight uint64
 			active, inactive := uint64(0), uint64(0)
 			for i, ss := range sess {
-				cs, ok := st.GetClientStats(clientName(i))
+				cs, ok := st.GetClientStats(cid(i))
 				if !ss.exists {
 					if ok && (cs.PacketStats.ReceivedTotal.Total != 0 || cs.PacketStats.SentTotal.Total != 0) {
 						last = fmt.Sprintf("client %d has no session but client statistics exist: %+v", i, cs.PacketStats.ReceivedTotal)
@@ -481,7 +505,7 @@ func runC20(s c20Scen, c *ev.Case) *ev.Violation {
 					mu.Lock()
 					want := map[string]uint64{}
 					for k, n := range drops {
-						if k.client == clientName(i) && int(k.qos) == q {
+						if k.client == cid(i) && int(k.qos) == q {
 							want[k.reason] = n
 							dropped += n
 						}
@@ -684,8 +708,8 @@ func runC20(s c20Scen, c *ev.Case) *ev.Violation {
 				return v
 			}
 			wasOnline := ss.online
-			b.Srv.ClientService().TerminateSession(clientName(op.Client))
-			if !waitSessionGone(b, clientName(op.Client)) {
+			b.Srv.ClientService().TerminateSession(cid(op.Client))
+			if !waitSessionGone(b, cid(op.Client)) {
 				return ev.Violf("C20.terminate", "session still present 5 s after TerminateSession")
 			}
 			if wasOnline {
